@@ -145,7 +145,7 @@ def root_path(f, e, tracked, depth=0, _shared=None):
             c = e[1]
             if c in LOCAL_DERIVE and e[2]:
                 b = _base_adt(f, e[2][0])
-                if b == 'state::State':
+                if b == 'state::State' and LOCAL_DERIVE[c][0] in tracked.get('state::State', ()):
                     return 'state::State', LOCAL_DERIVE[c], via + [c], shared[0]
                 return None
             if c in DERIVE_MUT and e[2]:
